@@ -4627,18 +4627,9 @@ impl<'a> Assignment<'a> {
                             "1" | "yes" | "true" | "enabled" | "on" => DataValue::Bool(true),
                             _ => DataValue::Bool(false),
                         },
-                        ArgType::Integer => DataValue::try_from(value).or_else(|_| {
-                            Err(StamError::QuerySyntaxError(
-                                format!("Expected integer in assignment, got '{}'", value),
-                                "",
-                            ))
-                        })?,
-                        ArgType::Float => DataValue::try_from(value).or_else(|_| {
-                            Err(StamError::QuerySyntaxError(
-                                format!("Expected integer in assignment, got '{}'", value),
-                                "",
-                            ))
-                        })?,
+                        //(DataValue::try_from(&str) makes a string of anything: convert the number)
+                        ArgType::Integer => DataValue::Int(parse_int_arg(value)?),
+                        ArgType::Float => DataValue::Float(parse_float_arg(value)?),
                         ArgType::String => DataValue::String(value.to_string()),
                         ArgType::Null => DataValue::Null,
                         _ => {
